@@ -2,6 +2,7 @@ package c03
 
 import (
 	"bytes"
+	"fmt"
 
 	"verifh/mon"
 )
@@ -26,7 +27,7 @@ func maxLen(s spec, thorough bool) int {
 }
 
 // oneshotWL: one call per mode object. Every admissible length up to 1040 (HCTR:
-// 400 in the quick tier), every IV/counter kind, both guard placements, the alias
+// 400 in the quick tier), every IV/counter kind, the three buffer placements (hi, lo, misaligned), the alias
 // modes, on every library path; each output is compared with the reference, the
 // fused encryption is additionally decrypted again by the library.
 func oneshotWL(x *mon.Ctx) {
@@ -36,16 +37,23 @@ func oneshotWL(x *mon.Ctx) {
 	big := newBufs(1<<16 + 64)
 	defer big.free()
 
-	reps := x.Scale(1, 20)
+	reps := x.Scale(1, 14)
 	if raceBuild(x) {
 		reps = x.Scale(1, 2) // checkptr needs every path once, not random depth
 	}
+	mis := 0 // running index of the misaligned cases: rotates the offset triple
 	for _, s := range allSpecs {
 		for n := s.min(); n <= maxLen(s, x.Thorough()); n += s.gran() {
 			for ki, ivk := range ivKinds(s) {
 				for rep := 0; rep < reps; rep++ {
-					for pl := 0; pl < 2; pl++ {
-						hi := pl == 0
+					for pl := 0; pl < 3; pl++ {
+						p := placement{kind: pl}
+						if pl == plMis {
+							// n/16 + n%16: lengths that share a tail path (same n mod 64,
+							// 128, 256) still walk through all five offsets
+							p = misPlacement(n/16 + n%16 + ki + rep + mis)
+							mis++
+						}
 						// quick: byte-granular modes rotate the alias mode so that every
 						// (residue, loop phase) still meets all three; block modes and the
 						// thorough tier take the full product
@@ -55,15 +63,18 @@ func oneshotWL(x *mon.Ctx) {
 						}
 						for _, al := range aliases {
 							c := x.Begin("oneshot mode=%s dir=%s len=%d iv=%s place=%s alias=%s rep=%d (key, iv/tweak, data from the case PRNG)",
-								s.mode, s.dir, n, ivk, side(hi), aliasName[al], rep)
+								s.mode, s.dir, n, ivk, p, aliasName[al], rep)
 							if c == nil {
 								continue
 							}
 							if n == 0 {
 								c.Trivial()
 							}
-							c.Class("one/%s/%s/%s/t%d/%s/%s/%s", s.mode, s.dir, lenClass(n), n%16, ivk, aliasName[al], side(hi))
-							oneCase(c, small, s, n, ivk, hi, al)
+							c.Class("one/%s/%s/%s/t%d/%s/%s/%s", s.mode, s.dir, lenClass(n), n%16, ivk, aliasName[al], p.short())
+							if pl == plMis {
+								c.Class("mis/%s/%s/%s/src+%d", s.mode, s.dir, lenClass(n), p.so)
+							}
+							oneCase(c, small, s, n, ivk, p, al)
 							c.End()
 						}
 					}
@@ -85,10 +96,14 @@ func oneshotWL(x *mon.Ctx) {
 					n = c.R.Range(latticeMax+1, 4200)
 				}
 				n -= n % s.gran()
-				hi := c.R.Bool()
+				p := placement{kind: c.R.Intn(3)}
+				if p.kind == plMis {
+					p = misPlacement(c.R.Intn(1000))
+				}
 				al := c.R.Intn(3)
-				c.Class("long/%s/%s/t%d/%s/%s/%s", s.mode, s.dir, n%16, ivk, aliasName[al], side(hi))
-				oneCase(c, big, s, n, ivk, hi, al)
+				c.Class("long/%s/%s/t%d/%s/%s/%s", s.mode, s.dir, n%16, ivk, aliasName[al], p.short())
+				c.Detail("placement", p.String())
+				oneCase(c, big, s, n, ivk, p, al)
 				c.End()
 			}
 		}
@@ -98,29 +113,32 @@ func oneshotWL(x *mon.Ctx) {
 const tailFill = 0x5C
 
 // oneCase executes one (mode, direction, length, iv kind, placement, alias) on all paths.
-func oneCase(c *mon.Case, bf *bufs, s spec, n int, ivk string, hi bool, al int) {
+func oneCase(c *mon.Case, bf *bufs, s spec, n int, ivk string, pl placement, al int) {
 	m := genMaterial(c.R, s, ivk)
 	data := c.R.Bytes(n)
 	extra := c.R.Range(1, 33)
 	want := reference(s, m, data)
 	c.Event("bytes", n)
-	p := bf.place(m, hi)
+	p := bf.place(m, pl)
+	if pl.kind == plMis {
+		c.Event(fmt.Sprintf("misaligned/src+%d/dst+%d", pl.so, pl.do), 1)
+	}
 
 	run := func(sp spec, path string, in []byte, alias int, what string) ([]byte, bool) {
 		f := construct(c, bf, sp, path, p, m)
 		if f == nil {
 			return nil, false
 		}
-		src := bf.src.Put(in, hi)
+		src := pl.putSrc(bf.src, in)
 		var dst []byte
 		switch alias {
 		case aDisjoint:
-			dst = bf.dst.Side(len(in), hi)
+			dst = pl.getDst(bf.dst, len(in))
 		case aInPlace:
-			bf.dst.Side(0, hi)
+			bf.dst.Lo(0)
 			dst = src
 		case aLonger:
-			dst = bf.dst.Side(len(in)+extra, hi)
+			dst = pl.getDst(bf.dst, len(in)+extra)
 			for i := range dst {
 				dst[i] = tailFill
 			}
@@ -150,7 +168,7 @@ func oneCase(c *mon.Case, bf *bufs, s spec, n int, ivk string, hi bool, al int) 
 	var fusedOut []byte
 	fusedVerdict := vFail
 	for _, path := range s.paths() {
-		what := s.String() + " (" + path + ", " + aliasName[al] + ", guard " + side(hi) + ")"
+		what := s.String() + " (" + path + ", " + aliasName[al] + ", guard " + pl.String() + ")"
 		got, ok := run(s, path, data, al, what)
 		if !ok {
 			continue
